@@ -499,6 +499,8 @@ impl<'tcx> Dump<'tcx> {
                     // pointer: try to read a byte-array / str constant through it
                     if let Some(bytes) = self.deref_bytes(&cv, cty) {
                         v.push(("bytes".to_string(), J::A(bytes.iter().map(|b| J::U(*b as u128)).collect())));
+                    } else if let Some(t) = self.const_tree(cv, cty, env, 0) {
+                        v.push(("tree".to_string(), t));
                     } else {
                         v.push(("opaque".to_string(), js(format!("{}", c.const_))));
                     }
@@ -512,7 +514,11 @@ impl<'tcx> Dump<'tcx> {
                     }
                 }
                 ConstValue::Indirect { .. } => {
-                    v.push(("opaque".to_string(), js(format!("{}", c.const_))));
+                    if let Some(t) = self.const_tree(cv, cty, env, 0) {
+                        v.push(("tree".to_string(), t));
+                    } else {
+                        v.push(("opaque".to_string(), js(format!("{}", c.const_))));
+                    }
                 }
             },
             _ => {
@@ -520,6 +526,108 @@ impl<'tcx> Dump<'tcx> {
             }
         }
         J::O(v)
+    }
+
+    /// structured value of an aggregate constant (promoted `&Some(1)` and the like)
+    fn const_tree(&mut self, cv: ConstValue, cty: Ty<'tcx>, env: TypingEnv<'tcx>, depth: u32) -> Option<J> {
+        let tcx = self.tcx;
+        if depth > 6 {
+            return None;
+        }
+        match cty.kind() {
+            ty::Ref(_, inner, _) => {
+                // a reference stored inside an allocation: load the pointer first
+                let cv = if let ConstValue::Indirect { alloc_id, offset } = cv {
+                    if let mir::interpret::GlobalAlloc::Memory(a) = tcx.global_alloc(alloc_id) {
+                        let a = a.inner();
+                        let prov = *a.provenance().ptrs().get(&offset)?;
+                        let start = offset.bytes() as usize;
+                        let b = a.inspect_with_uninit_and_ptr_outside_interpreter(start..start + 8);
+                        let mut rel: u64 = 0;
+                        for (i, x) in b.iter().enumerate() {
+                            rel |= (*x as u64) << (8 * i);
+                        }
+                        let ptr = mir::interpret::Pointer::new(prov, rustc_abi::Size::from_bytes(rel));
+                        ConstValue::Scalar(mir::interpret::Scalar::from_pointer(ptr, &tcx))
+                    } else {
+                        return None;
+                    }
+                } else {
+                    cv
+                };
+                if let ConstValue::Scalar(mir::interpret::Scalar::Ptr(ptr, _)) = cv {
+                    let (prov, off) = ptr.prov_and_relative_offset();
+                    if !inner.is_sized(tcx, env) {
+                        return None;
+                    }
+                    let inner_cv = ConstValue::Indirect { alloc_id: prov.alloc_id(), offset: off };
+                    // scalars behind a reference: read the little-endian bytes of the allocation
+                    if inner.is_integral() || inner.is_bool() || inner.is_char() {
+                        let size = tcx.layout_of(env.as_query_input(*inner)).ok()?.size.bytes() as usize;
+                        if let mir::interpret::GlobalAlloc::Memory(a) = tcx.global_alloc(prov.alloc_id()) {
+                            let a = a.inner();
+                            let start = off.bytes() as usize;
+                            let b = a.inspect_with_uninit_and_ptr_outside_interpreter(start..start + size);
+                            let mut bits: u128 = 0;
+                            for (i, x) in b.iter().enumerate() {
+                                bits |= (*x as u128) << (8 * i);
+                            }
+                            let tix = self.ty(*inner, env);
+                            let v = match inner.kind() {
+                                ty::Int(_) => {
+                                    let w = (size * 8) as u32;
+                                    let sv: i128 = if w < 128 && (bits >> (w - 1)) & 1 == 1 { (bits as i128) - (1i128 << w) } else { bits as i128 };
+                                    J::I(sv)
+                                }
+                                _ => J::U(bits),
+                            };
+                            return Some(obj! {"ref" => obj!{"ty" => J::U(tix as u128), "int" => v}});
+                        }
+                        return None;
+                    }
+                    let t = self.const_tree(inner_cv, *inner, env, depth + 1)?;
+                    return Some(obj! {"ref" => t});
+                }
+                None
+            }
+            ty::Adt(..) | ty::Tuple(..) | ty::Array(..) => {
+                let d = std::panic::catch_unwind(std::panic::AssertUnwindSafe(|| {
+                    tcx.try_destructure_mir_constant_for_user_output(cv, cty)
+                }))
+                .ok()??;
+                let mut fields = Vec::new();
+                for (fv, fty) in d.fields.iter() {
+                    let j = match fv {
+                        ConstValue::Scalar(mir::interpret::Scalar::Int(si)) => {
+                            let bits = si.to_bits(si.size());
+                            let tix = self.ty(*fty, env);
+                            let v = match fty.kind() {
+                                ty::Int(_) => {
+                                    let w = si.size().bits();
+                                    let sv: i128 = if w < 128 && (bits >> (w - 1)) & 1 == 1 { (bits as i128) - (1i128 << w) } else { bits as i128 };
+                                    J::I(sv)
+                                }
+                                _ => J::U(bits),
+                            };
+                            obj! {"ty" => J::U(tix as u128), "int" => v}
+                        }
+                        ConstValue::ZeroSized => obj! {"ty" => J::U(self.ty(*fty, env) as u128), "zst" => J::B(true)},
+                        other => {
+                            let t = self.const_tree(*other, *fty, env, depth + 1)?;
+                            obj! {"ty" => J::U(self.ty(*fty, env) as u128), "tree" => t}
+                        }
+                    };
+                    fields.push(j);
+                }
+                let tix = self.ty(cty, env);
+                Some(obj! {
+                    "ty" => J::U(tix as u128),
+                    "variant" => match d.variant { Some(v) => J::U(v.as_u32() as u128), None => J::Null },
+                    "fields" => J::A(fields),
+                })
+            }
+            _ => None,
+        }
     }
 
     fn deref_bytes(&self, cv: &ConstValue, cty: Ty<'tcx>) -> Option<Vec<u8>> {
